@@ -1755,7 +1755,14 @@ pub fn svcfaults(rng: &mut Rng) -> Program {
     c.push(Op::Send { slot: base, script: vec![PStep::Sleep(1)], cancel: None });
     c.push(Op::Call { slot: base, script: vec![], cancel: None });
     c.push(Op::Sleep(3));
-    match g.rng.below(3) {
+    match g.rng.below(4) {
+        3 => {
+            // the other on-demand entry point: after setup() a live instance is registered
+            c.push(Op::Setup { k });
+            c.push(Op::TryFromRegistry { k }); // base+1
+            c.push(Op::Call { slot: base + 1, script: vec![], cancel: None });
+            c.push(Op::AlreadyRunning { k });
+        }
         0 => {
             c.push(Op::FromRegistry { k }); // base+1
             c.push(Op::Call { slot: base + 1, script: vec![], cancel: None });
